@@ -155,6 +155,7 @@ func (vm *VM) lockWrite(p PtrV, try bool) bool {
 		ls.other = false
 		ls.owner = vm.P.curThread
 		vm.addHeld(k)
+		vm.raceAcquire(k, true)
 		return true
 	}
 	if try {
@@ -199,6 +200,7 @@ func (vm *VM) lockRead(p PtrV, try bool) bool {
 		vm.lockEventLog(kind, ls, true)
 		ls.r++
 		vm.addHeld(k)
+		vm.raceAcquire(k, false)
 		return true
 	}
 	if try {
@@ -219,6 +221,7 @@ func (vm *VM) unlockWrite(p PtrV) {
 	}
 	vm.lockEventLog("unlock", ls, true)
 	ls.w = false
+	vm.raceRelease(vm.lockKey(p), true)
 	vm.delHeld(vm.lockKey(p))
 	vm.schedPoint("unlock")
 }
@@ -232,6 +235,7 @@ func (vm *VM) unlockRead(p PtrV) {
 	}
 	vm.lockEventLog("runlock", ls, true)
 	ls.r--
+	vm.raceRelease(vm.lockKey(p), false)
 	vm.delHeld(vm.lockKey(p))
 	vm.schedPoint("runlock")
 }
@@ -360,6 +364,16 @@ func addSync(m map[string]Intrinsic) {
 	m["vocab.vThread2LocksLeaked"] = func(vm *VM, fn *ssa.Function, args []Value) Value {
 		return intV(len(vm.P.thread2Held))
 	}
+	m["vocab.vRaceBegin"] = func(vm *VM, fn *ssa.Function, args []Value) Value {
+		vm.raceBegin()
+		return nil
+	}
+	m["vocab.vRaceEnd"] = func(vm *VM, fn *ssa.Function, args []Value) Value {
+		if vm.P.race != nil {
+			vm.P.race.on = false
+		}
+		return nil
+	}
 	m["vocab.vResetLockEvents"] = func(vm *VM, fn *ssa.Function, args []Value) Value {
 		vm.P.lockEvents = nil
 		return nil
@@ -473,4 +487,3 @@ func (vm *VM) storeAtomic(p PtrV, v Value) {
 	vm.setObj(p.Obj, vm.update(p.Obj.Val, p.Path, v))
 }
 
-func (vm *VM) atomicHB(p PtrV, write bool) {}
